@@ -9,12 +9,20 @@ EXPLANATION = ('Effect / value-flow rules on constructors and seeding methods: R
                'R8.3 a value that may encapsulate a generator (type parameter bounded by Proposal, which offers set_seed) and is cloned from one prototype into '
                'every chain passes through set_seed(., per-chain value) first; R8.4 within a chain the acceptance seed is seed + k (k >= 1 for every index) and '
                'differs from the proposal seed; R8.5 HMC draws one [n_chains, dim] momentum block and n_chains uniforms from its single stream (no expand of a smaller draw).')
-FLOORS = {'obligations': 12}   # counted on the reference tree; fewer instantiated obligations is reported, never passed silently
+FLOORS = {'obligations': 31}   # counted on the reference tree; fewer instantiated obligations is reported, never passed silently
 TECHNIQUE = 'effect / ownership analysis of constructors and seeding methods over value-flow terms (affine seed forms, clone provenance)'
 
 
 def run(ctx):
     A = anchors(ctx)
+    # what the per-chain analysis below takes for granted: a clone is a copy (derived Clone on the sampler / proposal types), `x.m()` reaches the
+    # analysed trait implementations, the proposal's re-seeding method cannot be silently inherited, and the accessor is the place self.chains
+    from .. import frame
+    frame.shadowing(ctx, 'C08', ['distributions::IsotropicGaussian', 'metropolis_hastings::MHMarkovChain', 'metropolis_hastings::MetropolisHastings', 'gibbs::GibbsMarkovChain', 'gibbs::GibbsSampler', 'hmc::HMC', 'nuts::NUTSChain', 'nuts::NUTS'])
+    frame.required_method(ctx, 'C08', 'distributions::Proposal', 'set_seed',
+                          why='each chain\'s proposal is given its own stream through this method; an inherited default cannot re-seed the implementor\'s generator, leaving every chain with a clone of one stream')
+    for b in [b for b in ctx.facts.bodies if b.get('container') == 'trait_impl' and strip_generics(b.get('trait') or '') == 'core::HasChains' and b.get('name') == 'chains_mut']:
+        frame.accessor_pure(ctx, 'C08', b, 'chains')
     idxsym = None
     # ---------------------------------------------------------------- R8.1 / R8.4 seeded: MH, NUTS
     seedexpr = {}
